@@ -149,3 +149,12 @@ pub fn law_len_of_encode(s: String) -> (r: (Result<Rc<Object>, String>, Result<R
     let l2 = match encode_utf8(one(o)) { Ok(b) => builtin_len(one(b)), Err(e) => Err(e) };
     (l1, l2)
 }
+
+// a string that is exactly one character / exactly one byte (builtin_char / builtin_byte on strings)
+#[verifier::external_body] pub fn single_char(s: &String) -> (r: Option<char>)
+    ensures r is Some <==> s@.len() == 1, r matches Some(c) ==> c == s@[0]
+{ let mut it = s.chars(); match (it.next(), it.next()) { (Some(c), None) => Some(c), _ => None } }
+#[verifier::external_body] pub fn single_byte(s: &String) -> (r: Option<&u8>)
+    ensures r is Some <==> utf8(s@).len() == 1, r matches Some(b) ==> *b == utf8(s@)[0]
+{ match s.as_bytes() { [b] => Some(b), _ => None } }
+#[verifier::external_body] pub fn char_of_u8(b: u8) -> (r: char) ensures r as u32 == b as u32 { char::from(b) }
